@@ -172,6 +172,85 @@ impl Family for A16Dst {
     }
 }
 
+// types whose alignment is below the header's 8 (plain u32 / u16 fields, packed): their size need not be a multiple of 8
+macro_rules! low_sized {
+    ($name:ident, $repr:meta, $tail:ty, $base:expr, $id:expr) => {
+        #[$repr]
+        struct $name {
+            typ: u32,
+            size: u32,
+            rest: $tail,
+        }
+        impl MaybeDynSized for $name {
+            type Header = TagHeader;
+            const BASE_SIZE: usize = $base;
+            fn dst_len(_: &TagHeader) {}
+        }
+        impl Tag for $name {
+            type IDType = TagType;
+            const ID: TagType = TagType::Custom($id);
+        }
+        impl Family for $name {
+            const NAME: &'static str = stringify!($name);
+            fn view(&self, base: *const u8) -> View {
+                let size = unsafe { std::ptr::read_unaligned(std::ptr::addr_of!(self.size)) };
+                let rest: &[u8] = unsafe { std::slice::from_raw_parts(std::ptr::addr_of!(self.rest) as *const u8, std::mem::size_of::<$tail>()) };
+                View { addr_off: rel(self, base), sov: std::mem::size_of_val(self), fields: vec![(4, size.to_le_bytes().to_vec()), (8, rest.to_vec())] }
+            }
+        }
+    };
+}
+low_sized!(L4S12, repr(C), u32, 12, 0x7000);
+low_sized!(L4S20, repr(C), [u32; 3], 20, 0x7001);
+low_sized!(L2S10, repr(C, packed(2)), u16, 10, 0x7002);
+low_sized!(L1S9, repr(C, packed), u8, 9, 0x7003);
+low_sized!(L1S15, repr(C, packed), [u8; 7], 15, 0x7004);
+low_sized!(L1S16, repr(C, packed), [u8; 8], 16, 0x7005);
+low_sized!(L4S16, repr(C), [u32; 2], 16, 0x7006);
+
+macro_rules! low_dst {
+    ($name:ident, $fixedw:expr, $elem:ty, $esize:expr, $id:expr, $sat:expr) => {
+        #[derive(ptr_meta::Pointee)]
+        #[repr(C)]
+        struct $name {
+            typ: u32,
+            size: u32,
+            fixed: [u32; $fixedw],
+            tail: [$elem],
+        }
+        impl MaybeDynSized for $name {
+            type Header = TagHeader;
+            const BASE_SIZE: usize = 8 + 4 * $fixedw;
+            fn dst_len(h: &TagHeader) -> usize {
+                if $sat {
+                    // a "forgiving" element count: zero elements when the tag does not even cover the fixed part
+                    (h.size as usize).saturating_sub(Self::BASE_SIZE) / $esize
+                } else {
+                    assert!(h.size as usize >= Self::BASE_SIZE);
+                    let n = h.size as usize - Self::BASE_SIZE;
+                    assert_eq!(n % $esize, 0);
+                    n / $esize
+                }
+            }
+        }
+        impl Tag for $name {
+            type IDType = TagType;
+            const ID: TagType = TagType::Custom($id);
+        }
+        impl Family for $name {
+            const NAME: &'static str = stringify!($name);
+            fn view(&self, base: *const u8) -> View {
+                let tail: &[u8] = unsafe { std::slice::from_raw_parts(self.tail.as_ptr() as *const u8, std::mem::size_of_val(&self.tail)) };
+                View { addr_off: rel(self, base), sov: std::mem::size_of_val(self), fields: vec![(4, self.size.to_le_bytes().to_vec()), (8 + 4 * $fixedw, tail.to_vec())] }
+            }
+        }
+    };
+}
+low_dst!(L4D12E1, 1, u8, 1, 0x7100, false);
+low_dst!(L4D12E1Sat, 1, u8, 1, 0x7101, true);
+low_dst!(L4D8E4, 0, u32, 4, 0x7102, false);
+low_dst!(L4D16E2Sat, 2, u16, 2, 0x7103, true);
+
 fn judge(ctx: &mut Ctx, name: &'static str, seam: &'static str, size: usize, img: &[u8], r: Out<View>) {
     match r {
         Out::Panic => {
@@ -220,6 +299,25 @@ fn family<T: Family + ?Sized>(ctx: &mut Ctx, arena: &Arena, max: usize) {
                 judge(ctx, T::NAME, "cast", size, &img, r);
             });
         });
+        // the same tag taken from a slice that goes on behind it (8, 16, 24 bytes of a neighbour): the view is the tag's
+        for slack in [8usize, 16, 24] {
+            let mut long = img.clone();
+            long.extend((0..slack).map(|i| marker(i, 77)));
+            let describe = || J::obj().set("seam", "cast-from-longer-slice").set("type", T::NAME).set("tag_size", size).set("slack", slack).set("slice", J::hex(&long));
+            ctx.leaf(describe, |ctx| {
+                ctx.state_direct();
+                ctx.nontrivial();
+                arena.fill(arena::FILL_A);
+                let p = arena.place_at((arena.len() - long.len()) & !(T::ALIGN - 1), &long);
+                let slice: &[u8] = unsafe { std::slice::from_raw_parts(p, long.len()) };
+                let Out::Val(Ok(g)) = ctx.call("ref_from_slice", || Generic::ref_from_slice(slice)) else {
+                    ctx.violation("c15/longer-slice/refused", || format!("ref_from_slice refused a slice of {} bytes holding a tag of size {}", long.len(), size));
+                    return;
+                };
+                let r = ctx.call("cast", || g.cast::<T>().view(p));
+                judge(ctx, T::NAME, "cast-from-longer-slice", size, &long, r);
+            });
+        }
         // region-level: BootInformation::get_tag::<T>()
         let region = bi::region(&[bi::sample(bi::MEMINFO, 1, 0), img[..size].to_vec(), bi::end_tag()], &|_, k| img.get(size + k).copied().unwrap_or(0));
         let describe = || J::obj().set("seam", "get_tag").set("type", T::NAME).set("tag_size", size).set("region", J::hex(&region));
@@ -254,6 +352,8 @@ fn run(ctx: &mut Ctx) {
     fam!(D8E1, D12E1, D16E1, D20E1, D24E1, D8E2, D12E2, D16E2, D20E2, D24E2, D8E3, D12E3, D16E3, D20E3, D24E3);
     fam!(D8E4, D12E4, D16E4, D20E4, D24E4, D8E8, D16E8, D24E8, D8E24, D16E24, D24E24);
     fam!(A16Sized, A16Dst);
+    ctx.bound("low_alignment", "7 sized types with alignment 4 / 2 / 1 (sizes 12, 20, 10, 9, 15, 16, 16) and 4 DSTs with alignment 4 (fixed parts 8, 12, 16; element sizes 1, 2, 4; two of them with a saturating element count), same tag sizes and seams: a type whose size is not a multiple of 8 can never have the tag's padded size, so every such cast must panic");
+    fam!(L4S12, L4S20, L2S10, L1S9, L1S15, L1S16, L4S16, L4D12E1, L4D12E1Sat, L4D8E4, L4D16E2Sat);
     // built-in kinds x all sizes
     ctx.bound("builtin", format!("all 22 built-in kinds x every tag size 8..={} (VBE: 8..=800): cast gives a view of exactly the tag's padded size or panics", max));
     for kind in 0..=21u32 {
